@@ -2,6 +2,11 @@
 
 T-gen : Gen/ValConst.v (pandora/constants.py bit values) re-checked equal to the model's
         constants by a per-run obligation in Props/C07.v.
+T-gen : Gen/XCheckKernel.v = CrossCheckingAccurate.disparity_checking (and the two disparity-range helpers of
+        disparity.py) translated statement by statement by translator/gen_xcheck_kernel.py over the numpy
+        semantics of Lib/NpVec.v + Lib/NpRow.v; Proofs/XCheckGenP.v re-proves at every run that the generated
+        row body = Model/CrossCheck.v mask_row / conf_row for ALL rows and that the whole generated method =
+        the model's xcheck; the headline theorems are restated on the generated method (C07_gen_*).
 T-corr: Model/CrossCheck.v (extracted, fid 1) against the real
         validation.AbstractValidation(**cfg).disparity_checking(left, right) followed by
         disparity_checking(right, checked left), exactly as state_machine.validation_run
@@ -20,7 +25,7 @@ import xarray as xr
 
 from harness import core
 
-GEN = ["gen_valconst"]
+GEN = ["gen_valconst", "gen_xcheck_kernel"]
 EXTRACT_FILES = ["X07"]
 DRIVERS = ["x07"]
 RULE = ("a case = a pair of left/right disparity maps (1..6 x 1..14, values k/4 with invalid_disparity -9999 or NaN), "
@@ -37,8 +42,17 @@ ASSUMES = [
     "left and right datasets have the same shape; disparity_interval holds integers (int() is the identity)",
     "the threshold is a finite number",
     "validity masks are uint16 and the flag additions do not wrap: proved (C07_no_wrap) for masks < 2^16",
+    "T-gen (Gen/XCheckKernel.v): float arithmetic of the row body is exact on rationals (|dL + dR|, col + d in float32 "
+    "are exact on the domain of bridging rule a); the disparity maps hold no +-inf on entry; the theorem 'generated = "
+    "model' is for a non-empty checked dataset and a reference dataset of the same shape ([gen_pre]); dataset_left and "
+    "dataset_right are distinct objects (no aliasing between the mask written and the maps read)",
 ]
-TRUSTED = ["Gen/ValConst.v produced by translator/gen_valconst.py from the imported pandora.constants"]
+TRUSTED = ["Gen/ValConst.v produced by translator/gen_valconst.py from the imported pandora.constants",
+           "Gen/XCheckKernel.v produced by translator/gen_xcheck_kernel.py (Python ast of validation.py / disparity.py, fail "
+           "closed) and the numpy semantics it targets: coq/Lib/NpVec.v + coq/Lib/NpRow.v (np.where, fancy indexing = copy, "
+           "np.rint half-even, astype(int) of NaN/inf = INT_MIN, uint16 stores modulo 65536, read-modify-write +=, np.tile, "
+           "transpose, 2-D gather/scatter in row-major order); allocate_confidence_map and mask_border stay hand-modelled "
+           "(parameters of the generated method, instantiated by Model/XCheckGen.v x_append_band / x_mask_border)"]
 
 # VERIF_AS_FOUND=1 compares with the model of the code before the `fix:` commits (fid 3)
 MODEL_FID = 3 if os.environ.get("VERIF_AS_FOUND") == "1" else 1
@@ -410,7 +424,14 @@ def run(ctx):
                         "dR": [[None if v is None else float(v) for v in row] for row in cs["R"]],
                         "maskL": cs["maskL"], "threshold": float(thr), "interval": cs["interval"],
                         "offset": cs["offset"], "mask_after": l1["mask"]}, limit=6)
-    ctx.gen_obligations = ["Gen.ValConst constants = Model.CrossCheck constants (reflexivity on the regenerated file)"]
+    ctx.gen_obligations = [
+        "Gen.ValConst constants = Model.CrossCheck constants (reflexivity on the regenerated file)",
+        "Gen.XCheckKernel.g_row = Model.CrossCheck mask_row / conf_row for every row, no partial operation fails, no "
+        "uint16 store wraps (C07_gen_row_eq_model, re-proved against the regenerated text)",
+        "Gen.XCheckKernel.g_disparity_checking (prelude, row loop, epilogue) = Model.CrossCheck.xcheck on every "
+        "well-shaped call (C07_gen_xcheck_eq_model) and C07_gen_xcheck_eq_spec / keep_iff / invalid_untouched / no_wrap / "
+        "disparity_unchanged on the generated method",
+    ]
     ctx.stats["spec_clauses_checked_on_impl"] = ["verdict per valid pixel (extracted xspec)", "invalid untouched",
                                                  "disparities unchanged (both datasets)", "reference dataset unchanged",
                                                  "confidence band value", "border bit 0"]
